@@ -13,6 +13,8 @@ def opt_sets(rng, tier):
         'wbuf=65536 reuse=1',
         'wbuf=65536 paranoid=1 filter=1 block=65536 restart=32',
         'wbuf=131072 maxfile=1048576 comp=1',
+        'wbuf=65536 cmp=ci',
+        'wbuf=65536 cmp=ci comp=1 block=2048',
     ]
     return sets
 
@@ -25,6 +27,9 @@ class Hist:
         self.opts = opts
         self.keys = []
         shapes = rng.below(4)
+        self.ci = 'cmp=ci' in opts
+        if self.ci:
+            shapes = rng.below(2)      # keys made of letters: every key has many spellings under the case-folding comparator
         for i in range(nkeys):
             if shapes == 0:
                 k = b'k%03d' % i
@@ -44,8 +49,13 @@ class Hist:
     def emit(self, s):
         self.lines.append(s)
 
+    def spell(self, k):
+        if not self.ci:
+            return k
+        return bytes((c - 32 if 97 <= c <= 122 and self.rng.chance(1, 2) else c) for c in k)
+
     def key(self):
-        return self.rng.choice(self.keys)
+        return self.spell(self.rng.choice(self.keys))
 
     def val(self, small=False):
         r = self.rng
@@ -101,6 +111,7 @@ class Hist:
         # absent neighbours
         extra = [k + b'\x00' for k in ks[:3]] + [k[:-1] for k in ks[:3] if k]
         for k in ks + extra:
+            k = self.spell(k)
             self.emit('get %s' % proto.arg(k))
             if with_snaps:
                 for sid in list(self.snaps):
@@ -312,7 +323,14 @@ def family_disjoint(rng, dbdir, opts, nops):
     return h.lines
 
 
-FAMILIES = [('random', family_random), ('snapshot-chain', family_snapshot_chain), ('tombstones', family_tombstones), ('disjoint', family_disjoint)]
+def family_casefold(rng, dbdir, opts, nops):
+    """a comparator under which different byte strings are one user key (ASCII case folding): every write, delete, read and
+    seek uses a random spelling, so overwrites and tombstones meet older versions spelled differently in other files"""
+    opts = rng.choice(['wbuf=65536 cmp=ci', 'wbuf=65536 cmp=ci comp=1 block=2048', 'wbuf=65536 cmp=ci restart=1 block=1024'])
+    return rng.choice([family_random, family_tombstones, family_snapshot_chain])(rng, dbdir, opts, nops)
+
+
+FAMILIES = [('random', family_random), ('snapshot-chain', family_snapshot_chain), ('tombstones', family_tombstones), ('disjoint', family_disjoint), ('casefold', family_casefold)]
 
 
 def gen_history(rng, dbdir, nops):
@@ -394,7 +412,7 @@ def family_lifecycle(rng, dbdir, opts, nops):
             h.emit('close')
             h.emit('lockprobe %s' % dbdir)              # released
             if rng.chance(1, 2):
-                wrong = 'cmp=rev' if 'cmp=' not in opts else opts.replace('cmp=rev', 'cmp=bw').replace('cmp=len', 'cmp=bw')
+                wrong = 'cmp=rev' if 'cmp=' not in opts else opts.replace('cmp=rev', 'cmp=bw').replace('cmp=len', 'cmp=bw').replace('cmp=ci', 'cmp=bw')
                 h.emit('expectfail')
                 h.emit('open %s %s' % (dbdir, wrong if 'cmp=' in wrong else opts + ' cmp=rev'))
                 h.emit('lockprobe %s' % dbdir)          # a failed open releases the lock
